@@ -204,6 +204,23 @@ def run(ctx: Ctx, rep: Report) -> None:
         # the reference stamp is taken from the same clock right after discovery, in the same block
         ok = stamp_node is not None and any(disco_assign in blk and stamp_node in blk and blk.index(stamp_node) == blk.index(disco_assign) + 1 for blk in _blocks(enc.node))
         rep.check(ok, "C12-R3", enc.site(stamp_node) if stamp_node is not None else enc.site(), "the local reference time is taken immediately after the discovery reply (same block)", key=f"{enc.key}|stamp-position")
+        # the cached engine time and its local reference stamp belong together: whoever writes the cache anywhere in
+        # the class (a "re-synchronisation" in decode, ...) re-stamps on the same path, or the elapsed time is counted
+        # from the wrong moment
+        if stamp_attr is not None:
+            for meth in v3.methods.values():
+                mcfg = ctx.cfg(meth)
+                cache_stores = [n for n in own_nodes(meth.node) if isinstance(n, ast.Assign) and any(isinstance(t, ast.Attribute) and t.attr == "disco" and norm(t.value) == "self" for t in n.targets)]
+                stamp_stores = [cfg_node_of(mcfg, n) for n in own_nodes(meth.node) if isinstance(n, ast.Assign) and any(isinstance(t, ast.Attribute) and t.attr == stamp_attr and norm(t.value) == "self" for t in n.targets)]
+                stamp_stores = [n for n in stamp_stores if n is not None]
+                for cs in cache_stores:
+                    if meth is enc and cs is disco_assign:
+                        continue  # decided above
+                    if isinstance(cs.value, ast.Constant) and cs.value.value is None:
+                        continue  # invalidation: the next request discovers (and stamps) again
+                    cnode = cfg_node_of(mcfg, cs)
+                    okp = cnode is not None and bool(stamp_stores) and mcfg.must_pass(cnode, [mcfg.exit], stamp_stores)
+                    rep.check(okp, "C12-R3", meth.site(cs), f"{meth.qualname}: a new engine time written to the discovery cache comes with a new local reference stamp (self.{stamp_attr}) on every path", key=f"{meth.key}|cache-without-stamp")
         elapsed_ok = False
         for n in own_nodes(enc.node):
             if isinstance(n, ast.BinOp) and isinstance(n.op, ast.Sub) and isinstance(n.left, ast.Call) and any(c in CLOCKS for c in ctx.r.callee_names(enc, n.left)) and stamp_attr and norm(n.right) == f"self.{stamp_attr}":
@@ -292,6 +309,9 @@ def run(ctx: Ctx, rep: Report) -> None:
     sub = Report(rep.prop, rep.tier)
     check_discovery(ctx, sub)
     rep.adopt(sub, "C12-R5")
+    # ... and both ids are the ids on the wire (no clamping / masking in the header encoder or the message decoder)
+    rep.adopt_rules(ctx.sub_run("c05", rep), "C12-R5", ["C05-R4"], containing="msgID")
+    rep.adopt_rules(ctx.sub_run("c06", rep), "C12-R5", ["C06-R3"], containing="Message.from_sequence")
 
     # ------------------------------------------------------------ R6
     resync = []
